@@ -36,6 +36,10 @@ class Box:
     def __repr__(self) -> str:
         return f"<Box {self.bid}>"
 
+    def __bool__(self) -> bool:
+        # box 3 is an *empty container*: bound, but falsy
+        return self.bid != 3
+
 
 class CtxModel:
     __slots__ = ("attrs", "stack", "cv", "alive")
@@ -369,7 +373,7 @@ class LocalsIsolation(Scenario):
                     continue
             if k in ("set", "push", "cvset", "pmut", "wsgi"):
                 uniq += 1
-                ops.append([c, k, rng.randrange(3), uniq])
+                ops.append([c, k, rng.randrange(3), 0 if k in ("set", "push", "cvset") and rng.random() < 0.12 else uniq])
             elif k in ("setbox", "pushbox"):
                 ops.append([c, k, rng.randrange(3), rng.randrange(4)])
             elif k == "mkproxy":
